@@ -416,7 +416,7 @@ func (ps *Pieces) Count() int {
 func (ps *Pieces) Hole(index, offset uint32) (uint32, uint32) {
 	ps.mu.RLock()
 	defer ps.mu.RUnlock()
-	p := ps.pieces[index]
+	p := &ps.pieces[index]
 	if p.busyOrComplete() {
 		return ^uint32(0), ^uint32(0)
 	}
